@@ -222,14 +222,16 @@ pub fn do_call(
 		"init_send_tx" => {
 			let args = send_args(v, r);
 			let o = guarded(|| api.init_send_tx(tok, args));
-			if let (Outcome::Ok(s), true) = (&o, commit && v != "estimate") {
+			if let (Outcome::Ok(s), true) = (&o, v != "estimate") {
 				r.n += 1;
 				let name = format!("c{}", r.n);
 				let rec = w.slates.entry(name.clone()).or_default();
 				rec.id = Some(s.id);
 				rec.stage.insert("S1".into(), s.clone());
-				// the peer answers at once (environment step; does not touch w1)
-				let _ = w.receive("w2", &name, "", None);
+				if commit {
+					// the peer answers at once (environment step; does not touch w1)
+					let _ = w.receive("w2", &name, "", None);
+				}
 				r.unlocked = Some(name);
 			}
 			fin(&o, slate_proj)
@@ -237,7 +239,7 @@ pub fn do_call(
 		"issue_invoice_tx" => {
 			let args = IssueInvoiceTxArgs { dest_acct_name: None, amount: 700 * U, target_slate_version: None };
 			let o = guarded(|| api.issue_invoice_tx(tok, args));
-			if let (Outcome::Ok(s), true) = (&o, commit) {
+			if let Outcome::Ok(s) = &o {
 				r.n += 1;
 				let name = format!("c{}", r.n);
 				let rec = w.slates.entry(name.clone()).or_default();
